@@ -185,6 +185,17 @@ def run(ctx):
                     v5, _, _ = stored_after(a_, 0x15)
                     okv = (v0 == 0 and isinstance(vf, int) and not isinstance(vf, bool) and isinstance(v5, int) and v5 == (0x15 & vf))
                     det = "stored after writing 0x00 / 0xff / 0x15 over an unknown old value: %s / %s / %s" % (D.short(v0), D.short(vf), D.short(v5))
+                    if "store_mask" in sp:
+                        # the defined bits are the documented ones, and each of them is stored at its own position
+                        # (two flags of the register type sharing a bit would lose one of them)
+                        singles = {}
+                        for k_ in range(8):
+                            vk, _, _ = stored_after(a_, 1 << k_)
+                            singles[k_] = vk
+                        want_ = {k_: ((1 << k_) & sp["store_mask"]) for k_ in range(8)}
+                        okv = okv and vf == sp["store_mask"] and singles == want_
+                        det += "; all bits -> %s (documented mask %#04x); single bits -> %s" % (
+                            D.short(vf), sp["store_mask"], {k_: D.short(v_) for k_, v_ in singles.items() if v_ != want_[k_]} or "each at its place")
                 chk.ob("write/stores-byte/%s/%#04x" % (name, a_), okv,
                        "after a write the register holds the written byte (its defined bits), independent of what it held before",
                        wb.loc(), det, "A4 on Bus::write with the old contents opaque")
